@@ -689,17 +689,14 @@ class ExponentialReconnectionPolicy(ReconnectionPolicy):
         self.max_attempts = max_attempts
 
     def new_schedule(self):
-        i, overflowed = 0, False
+        # double the delay step by step instead of computing base_delay * 2 ** i:
+        # the power overflows float conversion from attempt 1024 on, which used to
+        # make the schedule jump to max_delay even when base_delay is 0
+        i, delay = 0, self.base_delay
         while self.max_attempts is None or i < self.max_attempts:
-            if overflowed:
-                yield self.max_delay
-            else:
-                try:
-                    yield self._add_jitter(min(self.base_delay * (2 ** i), self.max_delay))
-                except OverflowError:
-                    overflowed = True
-                    yield self.max_delay
-
+            yield self._add_jitter(min(delay, self.max_delay))
+            if delay < self.max_delay:
+                delay = delay * 2
             i += 1
 
     # Adds -+ 15% to the delay provided
